@@ -13,3 +13,6 @@ t = time.time()
 d, h, fresh, _ = chk.ensure_facts('default')
 print('facts %s in %s (%s, %.1fs)' % (h, d, 'extracted' if fresh else 'cached', time.time() - t))
 PY
+# warm the compile-fail witness build (doc tests of /verif/witness against /repo)
+cp /repo/Cargo.lock witness/Cargo.lock
+CARGO_TARGET_DIR=/verif/.cache/witness-target cargo +nightly test --doc --offline --manifest-path witness/Cargo.toml 2>&1 | tail -3
